@@ -169,7 +169,7 @@ Section RunSim.
     { intros u1 u2 x [HA HV]. split; [apply eqv_set_input, HA|exact HV]. }
     assert (STE : forall u2, EV (u_verrs u2) ->
       esc_result
-           (let '(i, changed) := remove_tabnl (u_input u2) in
+           (let '(i, changed) := remove_tabnl_sv (c_acceptInvalid c2) (u_input u2) in
             if changed then
               match handleError c2 u2 InvalidURLUnit false with
               | (u', Some e) => RErr u' e
@@ -182,13 +182,13 @@ Section RunSim.
             else run idna c2 (decode (u_input u2)) (option_map clone b2) ov
                    (fuel_of (length (decode (u_input u2))))
                    (mk (match ov with Some s => s | None => SchemeStart end) (-1)%Z false [] false false false u2))).
-    { intros u2 HE. destruct (remove_tabnl (u_input u2)) as [i changed].
+    { intros u2 HE. destruct (remove_tabnl_sv (c_acceptInvalid c2) (u_input u2)) as [i changed].
       destruct changed; [|apply KE, HE].
       pose proof (H_ev _ InvalidURLUnit false HE) as HH.
       destruct (handleError c2 u2 InvalidURLUnit false) as [u2' [e|]]; [exact I|].
       apply KE. exact HH. }
     assert (ST : forall u1 u2, UR u1 u2 ->
-      RESR (let '(i, changed) := remove_tabnl (u_input u1) in
+      RESR (let '(i, changed) := remove_tabnl_sv (c_acceptInvalid c1) (u_input u1) in
             if changed then
               match handleError c1 u1 InvalidURLUnit false with
               | (u', Some e) => RErr u' e
@@ -201,7 +201,7 @@ Section RunSim.
             else run idna c1 (decode (u_input u1)) (option_map clone b2) ov
                    (fuel_of (length (decode (u_input u1))))
                    (mk (match ov with Some s => s | None => SchemeStart end) (-1)%Z false [] false false false u1))
-           (let '(i, changed) := remove_tabnl (u_input u2) in
+           (let '(i, changed) := remove_tabnl_sv (c_acceptInvalid c2) (u_input u2) in
             if changed then
               match handleError c2 u2 InvalidURLUnit false with
               | (u', Some e) => RErr u' e
@@ -214,8 +214,8 @@ Section RunSim.
             else run idna c2 (decode (u_input u2)) (option_map clone b2) ov
                    (fuel_of (length (decode (u_input u2))))
                    (mk (match ov with Some s => s | None => SchemeStart end) (-1)%Z false [] false false false u2))).
-    { intros u1 u2 HU. rewrite <- (eqv_input (UR_eqv HU)).
-      destruct (remove_tabnl (u_input u1)) as [i changed].
+    { intros u1 u2 HU. rewrite <- (eqv_input (UR_eqv HU)), (ag_acceptInvalid Hag).
+      destruct (remove_tabnl_sv (c_acceptInvalid c1) (u_input u1)) as [i changed].
       destruct changed; [|apply K, HU].
       cbn [u_input set_input].
       pose proof (he_rel InvalidURLUnit false HU) as HH.
